@@ -221,10 +221,20 @@ fn run_case(rep: &mut Report, seed: u64, case: u64) {
             for _ in 0..n_calls {
                 read_call(&mut pkg, &mut rng, &mut log);
             }
+            // one session in five: the medium refuses `flush` (once, or from now on); the session is still read-only,
+            // whatever is called afterwards
+            if case % 5 == 1 {
+                med.arm(crate::medium::Fault { kind: crate::medium::FaultKind::Flush, at: 0, persistent: case % 2 == 0, as_eof: false });
+                let _ = pkg.flush();
+                let _ = pkg.flush();
+            }
             match mode {
                 CloseMode::Flush => {
-                    pkg.flush().map_err(|e| format!("flush failed: {}", e))?;
+                    let r = pkg.flush();
                     drop(pkg);
+                    if case % 5 != 1 {
+                        r.map_err(|e| format!("flush failed: {}", e))?;
+                    }
                 }
                 CloseMode::IntoInner => {
                     pkg.into_inner().map_err(|e| format!("into_inner failed: {}", e))?;
